@@ -335,6 +335,10 @@ func execAtomic(c *atomicCase) []string {
 		slotID[i] = id
 	}
 	const bigK = 100000
+	// the search objects of a probe (hybrid and per sub-index) are executed at once, at once and
+	// again after the next Add / AddWithID / Remove / Flush, or only after it (rexec.go); the probe
+	// lines are emitted where the Execute happens
+	var rex rexQueue
 	for _, cmd := range c.Cmds {
 		switch cmd.Op {
 		case "add", "addid":
@@ -385,6 +389,7 @@ func execAtomic(c *atomicCase) []string {
 				}
 				lines = append(lines, fmt.Sprintf("op addid %d %s %s %s => %s", id, core.VecHex(v), textArg(cmd.Text), metaArg(cmd.Meta), res))
 			}
+			rex.run()
 		case "remove":
 			id, known := slotID[cmd.Slot]
 			if !known {
@@ -396,114 +401,123 @@ func execAtomic(c *atomicCase) []string {
 				res = "err"
 			}
 			lines = append(lines, fmt.Sprintf("op remove %d => %s", id, res))
+			rex.run()
 		case "flush":
 			res := "ok"
 			if err := idx.Flush(); err != nil {
 				res = "err"
 			}
 			lines = append(lines, "op flush => "+res)
+			rex.run()
 		case "pvec":
 			q := core.FromBits(cmd.Vec)
 			// through the hybrid search
-			hres, err := idx.NewSearch().WithVector(append([]float32(nil), q...)).WithK(bigK).WithNProbes(c.NList + 5).Execute()
-			out := "err"
-			if err == nil {
-				var b strings.Builder
-				b.WriteString("ok")
-				for _, h := range hres {
-					fmt.Fprintf(&b, " %d:%s", h.ID, core.Hex32(float32(h.Score)))
-				}
-				out = b.String()
-			}
-			lines = append(lines, fmt.Sprintf("op probevec h %s => %s", core.VecHex(q), out))
-			// through the vector index directly
+			hs := idx.NewSearch().WithVector(append([]float32(nil), q...)).WithK(bigK).WithNProbes(c.NList + 5)
+			// through the vector index directly; an id stored twice shows as sum != max aggregation
+			// of its per-entry scores
+			var ss, ms comet.VectorSearch
 			if vec != nil {
-				sres, err := vec.NewSearch().WithQuery(append([]float32(nil), q...)).WithK(bigK).WithNProbes(c.NList + 5).Execute()
-				out = "err"
-				if err == nil {
-					out = hitsLine(sres)
-				}
-				lines = append(lines, fmt.Sprintf("op probevec s %s => %s", core.VecHex(q), out))
-				// an id stored twice shows as sum != max aggregation of its per-entry scores
-				mres, err2 := vec.NewSearch().WithQuery(append([]float32(nil), q...)).WithK(bigK).WithNProbes(c.NList + 5).
-					WithScoreAggregation(comet.MaxAggregation).Execute()
-				if err == nil && err2 == nil {
-					lines = append(lines, fmt.Sprintf("op probedup %s | %s => ok", strings.TrimPrefix(hitsLine(sres), "ok"), strings.TrimPrefix(hitsLine(mres), "ok")))
-				}
+				ss = vec.NewSearch().WithQuery(append([]float32(nil), q...)).WithK(bigK).WithNProbes(c.NList + 5)
+				ms = vec.NewSearch().WithQuery(append([]float32(nil), q...)).WithK(bigK).WithNProbes(c.NList + 5).
+					WithScoreAggregation(comet.MaxAggregation)
 			}
+			rex.next(func() {
+				hres, err := hs.Execute()
+				out := "err"
+				if err == nil {
+					var b strings.Builder
+					b.WriteString("ok")
+					for _, h := range hres {
+						fmt.Fprintf(&b, " %d:%s", h.ID, core.Hex32(float32(h.Score)))
+					}
+					out = b.String()
+				}
+				lines = append(lines, fmt.Sprintf("op probevec h %s => %s", core.VecHex(q), out))
+				if vec != nil {
+					sres, err := ss.Execute()
+					out = "err"
+					if err == nil {
+						out = hitsLine(sres)
+					}
+					lines = append(lines, fmt.Sprintf("op probevec s %s => %s", core.VecHex(q), out))
+					mres, err2 := ms.Execute()
+					if err == nil && err2 == nil {
+						lines = append(lines, fmt.Sprintf("op probedup %s | %s => ok", strings.TrimPrefix(hitsLine(sres), "ok"), strings.TrimPrefix(hitsLine(mres), "ok")))
+					}
+				}
+			})
 		case "ptxt":
-			hres, err := idx.NewSearch().WithText(cmd.Word).WithK(bigK).Execute()
-			out := "err"
-			if err == nil {
-				ids := make([]uint32, len(hres))
-				for i, h := range hres {
-					ids[i] = h.ID
-				}
-				out = idsLine("ok", ids)
-			}
-			lines = append(lines, fmt.Sprintf("op probetxt h %s => %s", cmd.Word, out))
+			hs := idx.NewSearch().WithText(cmd.Word).WithK(bigK)
+			var ss comet.TextSearch
 			if txt != nil {
-				sres, err := txt.NewSearch().WithQuery(cmd.Word).WithK(bigK).Execute()
-				out = "err"
+				ss = txt.NewSearch().WithQuery(cmd.Word).WithK(bigK)
+			}
+			rex.next(func() {
+				hres, err := hs.Execute()
+				out := "err"
 				if err == nil {
-					ids := make([]uint32, len(sres))
-					for i, h := range sres {
-						ids[i] = h.GetId()
+					ids := make([]uint32, len(hres))
+					for i, h := range hres {
+						ids[i] = h.ID
 					}
 					out = idsLine("ok", ids)
 				}
-				lines = append(lines, fmt.Sprintf("op probetxt s %s => %s", cmd.Word, out))
-			}
+				lines = append(lines, fmt.Sprintf("op probetxt h %s => %s", cmd.Word, out))
+				if txt != nil {
+					sres, err := ss.Execute()
+					out = "err"
+					if err == nil {
+						ids := make([]uint32, len(sres))
+						for i, h := range sres {
+							ids[i] = h.GetId()
+						}
+						out = idsLine("ok", ids)
+					}
+					lines = append(lines, fmt.Sprintf("op probetxt s %s => %s", cmd.Word, out))
+				}
+			})
 		case "pmeta":
 			f := comet.Eq(cmd.K, metaValue(atomicKV{K: cmd.K, V: cmd.V, Kind: cmd.Kind}))
-			hres, err := idx.NewSearch().WithMetadata(f).WithK(bigK).Execute()
-			out := "err"
-			if err == nil {
-				ids := make([]uint32, len(hres))
-				for i, h := range hres {
-					ids[i] = h.ID
-				}
-				out = idsLine("ok", ids)
-			}
-			lines = append(lines, fmt.Sprintf("op probemeta h %s %s => %s", cmd.K, cmd.V, out))
-			if meta != nil {
-				sres, err := meta.NewSearch().WithFilters(f).Execute()
-				out = "err"
-				if err == nil {
-					ids := make([]uint32, len(sres))
-					for i, h := range sres {
-						ids[i] = h.GetId()
-					}
-					out = idsLine("ok", ids)
-				}
-				lines = append(lines, fmt.Sprintf("op probemeta s %s %s => %s", cmd.K, cmd.V, out))
-			}
 			// the same field through Exists (its own code path and caches)
 			fe := comet.Exists(cmd.K)
-			hres, err = idx.NewSearch().WithMetadata(fe).WithK(bigK).Execute()
-			out = "err"
-			if err == nil {
+			hs, hse := idx.NewSearch().WithMetadata(f).WithK(bigK), idx.NewSearch().WithMetadata(fe).WithK(bigK)
+			var ss, sse comet.MetadataSearch
+			if meta != nil {
+				ss, sse = meta.NewSearch().WithFilters(f), meta.NewSearch().WithFilters(fe)
+			}
+			hIDs := func(hres []comet.HybridSearchResult, err error) string {
+				if err != nil {
+					return "err"
+				}
 				ids := make([]uint32, len(hres))
 				for i, h := range hres {
 					ids[i] = h.ID
 				}
-				out = idsLine("ok", ids)
+				return idsLine("ok", ids)
 			}
-			lines = append(lines, fmt.Sprintf("op probeex h %s => %s", cmd.K, out))
-			if meta != nil {
-				sres, err := meta.NewSearch().WithFilters(fe).Execute()
-				out = "err"
-				if err == nil {
-					ids := make([]uint32, len(sres))
-					for i, h := range sres {
-						ids[i] = h.GetId()
-					}
-					out = idsLine("ok", ids)
+			sIDs := func(sres []comet.MetadataResult, err error) string {
+				if err != nil {
+					return "err"
 				}
-				lines = append(lines, fmt.Sprintf("op probeex s %s => %s", cmd.K, out))
+				ids := make([]uint32, len(sres))
+				for i, h := range sres {
+					ids[i] = h.GetId()
+				}
+				return idsLine("ok", ids)
 			}
+			rex.next(func() {
+				lines = append(lines, fmt.Sprintf("op probemeta h %s %s => %s", cmd.K, cmd.V, hIDs(hs.Execute())))
+				if meta != nil {
+					lines = append(lines, fmt.Sprintf("op probemeta s %s %s => %s", cmd.K, cmd.V, sIDs(ss.Execute())))
+				}
+				lines = append(lines, fmt.Sprintf("op probeex h %s => %s", cmd.K, hIDs(hse.Execute())))
+				if meta != nil {
+					lines = append(lines, fmt.Sprintf("op probeex s %s => %s", cmd.K, sIDs(sse.Execute())))
+				}
+			})
 		}
 	}
+	rex.run()
 	_ = math.Pi
 	return append(lines, "end")
 }
